@@ -106,6 +106,10 @@ impl BuildRecord {
         if let Some(ref config) = self.product_config {
             self.validate_hash("product_config", config)?;
         }
+        if let Some(ref keyring) = self.keyring {
+            // emitted in the `KeyRing!HEX:16` column
+            self.validate_hash("keyring", keyring)?;
+        }
 
         // Validate content keys (32 hex characters)
         self.validate_hash("encoding_ekey", &self.encoding_ekey)?;
